@@ -84,6 +84,9 @@ var BadLeafFields = map[string]bool{"i": true, "mi": true, "ints": true}
 
 // value is fieldValue under the run's fault plan (only FaultBadLeaf changes the value itself).
 func (r *Run) value(n *Node, field string, args map[string]interface{}) interface{} {
+	if field == "meet" && r.OnMeet != nil {
+		r.OnMeet()
+	}
 	v := fieldValue(n, field, args)
 	if r.Faults[CallKey{n.ID, field}] == FaultBadLeaf && BadLeafFields[field] {
 		switch tv := v.(type) {
@@ -500,7 +503,8 @@ func (c *Common) call(field string) (interface{}, error) {
 	return c.Xr.value(c.Xn, field, nil), nil
 }
 
-func (c *Common) Mi() (interface{}, error) { return c.call("mi") }
+func (c *Common) Mi() (interface{}, error)   { return c.call("mi") }
+func (c *Common) Meet() (interface{}, error) { return c.call("meet") }
 func (c *Common) Mkid() (interface{}, error) {
 	v, err := c.call("mkid")
 	if v == nil {
